@@ -284,7 +284,8 @@ FilesAgree(cfg, m, fs) ==
        /\ (cfg.kind = "download" => fs[k].pr = m.files[k].pr)
 BytesAgree(cfg, m, r) ==
   /\ r.ok /\ r.exact
-  /\ r.kind = cfg.kind /\ r.ver = cfg.ver
+  /\ r.kind = cfg.kind
+  /\ (cfg.kind # "install" => r.ver = cfg.ver)     \* the install builder has no version parameter
   /\ r.n = NFiles(m)
   /\ FilesAgree(cfg, m, r.files)
   /\ Len(r.tags) = Len(m.tags)
